@@ -27,6 +27,43 @@ Open Scope string_scope.
 
 Inductive transport := TPlain | TRequest | TRequestUri | TPar.
 
+(* ------------------------------------------------------------------ repairs of recorded findings
+   One flag per recorded C12 finding that has a repair.  `false` = the library behaves as recorded in
+   known_findings.txt; `true` = the library carries the repair.  The model, the limits, the witnesses of
+   Props/C12.v and the driver's generator all follow the flags, so switching one line switches everything;
+   the correspondence run decides whether the flag matches the tree under test. *)
+
+(* hs-sign:id_token / hs-sign:userinfo - HS256/384/512 ID Tokens and userinfo responses are signed with the
+   client's secret, looked up under the client id (IDToken.sign_encrypt, UserInfo.do_response).
+   Repair: hs-sign-client-secret.diff *)
+Definition repaired_hs_sign : bool := true.
+
+(* idt-enc-not-applied - the provider encrypts the ID Token for a client that registered
+   id_token_encrypted_response_alg (IDToken.sign_encrypt) and the relying party's verify_id_token looks
+   inside an encrypted ID Token.
+   Repair: idt-enc-applied.diff *)
+Definition repaired_idt_enc : bool := true.
+
+(* par-claims-not-parsed - the pushed authorization endpoint parses and stores the request with the
+   authorization endpoint's request class, so a claims request stays a mapping.
+   Repair: par-request-class.diff *)
+Definition repaired_par_request_class : bool := true.
+
+(* par-jwt-audience - the pushed authorization endpoint accepts a client assertion addressed to the issuer
+   (allowed_targets gets the issuer, as RFC 9126 asks).
+   Repair: par-issuer-audience.diff *)
+Definition repaired_par_issuer_audience : bool := false.
+
+(* byref-nonce-missing / byref-consent-missing - a request passed by request_uri / PAR is verified after the
+   request object has been merged in, not on the front-channel stub.
+   Repair: byref-verify-after-assembly.diff *)
+Definition repaired_byref : bool := true.
+
+(* idt-exp-unrecorded - a token minted at the authorization endpoint without a usage rule (the ID Token) gets
+   the token handler's lifetime as expires_at.
+   Repair: idt-exp-recorded.diff *)
+Definition repaired_idt_exp : bool := false.
+
 Record cfg := mkCfg {
   c_rt : pystr;                          (* response_type *)
   c_rm : option pystr;                   (* response_mode explicitly requested, or none *)
@@ -194,7 +231,9 @@ Definition is_jwt_method (m : pystr) : bool :=
 Definition rp_assertion_aud (endpoint : pystr) : audience :=
   if str_eqb endpoint (PS "token") then AudEndpoint (PS "token") else AudIssuer.
 (* Endpoint.allowed_target_uris with the default allowed_targets = [the endpoint itself] *)
-Definition op_allowed_aud (endpoint : pystr) : list audience := [AudEndpoint endpoint].
+Definition op_allowed_aud (endpoint : pystr) : list audience :=
+  AudEndpoint endpoint ::
+  (if repaired_par_issuer_audience && str_eqb endpoint (PS "pushed_authorization") then [AudIssuer] else []).
 Definition aud_ok (endpoint : pystr) : bool :=
   existsb (audience_eqb (rp_assertion_aud endpoint)) (op_allowed_aud endpoint).
 
@@ -230,13 +269,13 @@ Definition par_ok (tr : transport) (auth : pystr) : bool :=
 Definition is_stub (tr : transport) : bool :=
   match tr with TRequestUri | TPar => true | _ => false end.
 Definition stub_ok (tr : transport) (rt : pystr) (offline : bool) : bool :=
-  negb (is_stub tr) || (negb (has_word "id_token" rt) && negb offline).
+  repaired_byref || negb (is_stub tr) || (negb (has_word "id_token" rt) && negb offline).
 
 (* PAR: the pushed request is stored as an oauth2 AuthorizationRequest, whose schema has no `claims`
    entry, so the claims request stays the JSON TEXT it was pushed as; the authorization endpoint later
    treats it as a mapping and fails (server_error; a crash when the request names no response_mode) *)
 Definition par_claims_ok (tr : transport) (claims : bool) : bool :=
-  match tr with TPar => negb claims | _ => true end.
+  repaired_par_request_class || match tr with TPar => negb claims | _ => true end.
 
 (* ------------------------------------------------------------------ signing and encryption keys *)
 (* key families among the provider's OWN keys in the validated configuration; a client secret is filed under
@@ -244,6 +283,7 @@ Definition par_claims_ok (tr : transport) (claims : bool) : bool :=
 Definition op_own_key_families : list keyfam := [KRsa; KEc; KOkp].
 Definition sign_key_ok (alg : pystr) : bool :=
   match assoc alg sig_alg_family with
+  | Some KOct => repaired_hs_sign      (* the client's secret, once it is looked up under the client id *)
   | Some f => existsb (keyfam_eqb f) op_own_key_families
   | None => false
   end.
@@ -301,7 +341,7 @@ Definition ui_enc_ok (rt : pystr) (enc : option (pystr * pystr)) (secret_len : N
   end.
 
 (* the provider never encrypts ID Tokens: nothing sets encrypt=True on the way to IDToken.__call__ ... *)
-Definition idt_encrypted (c : cfg) : bool := false.
+Definition idt_encrypted (c : cfg) : bool := repaired_idt_enc && is_some (c_idt_enc c).
 (* ... and a statically registered relying party enforces the id_token_encrypted_response_alg / _enc it registered
    when it verifies an ID Token (gather_verify_arguments: encalg / encenc), so the signed-only ID Token is
    rejected where it arrives: in the authorization response, or in the token response *)
@@ -311,9 +351,19 @@ Definition idt_enc_registered (enc : option (pystr * pystr)) : bool :=
   | None => false
   end.
 Definition idt_enc_front_ok (rt : pystr) (enc : option (pystr * pystr)) : bool :=
-  negb (idt_enc_registered enc && str_in (PS "id_token") (artefacts_op rt)).
+  repaired_idt_enc || negb (idt_enc_registered enc && str_in (PS "id_token") (artefacts_op rt)).
 Definition idt_enc_token_ok (rt : pystr) (enc : option (pystr * pystr)) : bool :=
-  negb (idt_enc_registered enc && uses_token_endpoint rt).
+  repaired_idt_enc || negb (idt_enc_registered enc && uses_token_endpoint rt).
+(* once the provider does encrypt: the key comes from the receiver, and for the AES key-wrap algorithms it is
+   the client secret used as it is (the same limit as for userinfo) *)
+Definition idt_enc_alg_key_ok (enc : option (pystr * pystr)) (secret_len : N) : bool :=
+  match enc with Some (a, _) => enc_key_ok a secret_len | None => true end.
+Definition idt_enc_key_authz_ok (rt : pystr) (enc : option (pystr * pystr)) (secret_len : N) : bool :=
+  negb (repaired_idt_enc && idt_enc_registered enc && str_in (PS "id_token") (artefacts_op rt)
+        && negb (idt_enc_alg_key_ok enc secret_len)).
+Definition idt_enc_key_token_ok (rt : pystr) (enc : option (pystr * pystr)) (secret_len : N) : bool :=
+  negb (repaired_idt_enc && idt_enc_registered enc && uses_token_endpoint rt
+        && negb (idt_enc_alg_key_ok enc secret_len)).
 
 (* ------------------------------------------------------------------ the staged flow *)
 Definition checks (c : cfg) (i : inp) : list (place * bool) :=
@@ -325,11 +375,13 @@ Definition checks (c : cfg) (i : inp) : list (place * bool) :=
     (AuthzParse, pkce_op_ok (c_pkce c));
     (AuthzProcess, par_claims_ok (c_tr c) (i_claims i));
     (AuthzProcess, idt_authz_ok (c_rt c) (c_idt_sig c));
+    (AuthzProcess, idt_enc_key_authz_ok (c_rt c) (c_idt_enc c) (i_secret_len i));
     (AuthzProcess, op_mode_ok (c_rt c) (c_rm c));
     (RpFinalize, idt_hashes_ok (c_rt c));
     (RpFinalize, idt_enc_front_ok (c_rt c) (c_idt_enc c));
     (TokenEp, token_auth_ok (c_rt c) (c_auth c));
     (TokenEp, idt_token_ok (c_rt c) (c_idt_sig c));
+    (TokenEp, idt_enc_key_token_ok (c_rt c) (c_idt_enc c) (i_secret_len i));
     (RpFinalize, idt_enc_token_ok (c_rt c) (c_idt_enc c));
     (UserinfoEp, ui_sig_ok (c_rt c) (c_ui_sig c));
     (UserinfoEp, ui_enc_ok (c_rt c) (c_ui_enc c) (i_secret_len i)) ].
@@ -361,9 +413,9 @@ Definition is_oct_sig (a : pystr) : bool :=
 (* ... whenever an ID Token is minted at all: at the authorization endpoint (id_token in the response type) or at
    the token endpoint (the relying party redeems the code) *)
 Definition lim_hs_idt (rt sig : pystr) : bool :=
-  is_oct_sig sig && (has_word "id_token" rt || uses_token_endpoint rt).
+  negb repaired_hs_sign && is_oct_sig sig && (has_word "id_token" rt || uses_token_endpoint rt).
 Definition lim_hs_ui (rt : pystr) (sig : option pystr) : bool :=
-  needs_userinfo rt && match sig with Some a => is_oct_sig a | None => false end.
+  negb repaired_hs_sign && needs_userinfo rt && match sig with Some a => is_oct_sig a | None => false end.
 (* AES key wrap of userinfo with a client secret that is not 16, 24 or 32 bytes long *)
 Definition lim_kw_secret (rt : pystr) (enc : option (pystr * pystr)) (secret_len : N) : bool :=
   needs_userinfo rt &&
@@ -373,20 +425,29 @@ Definition lim_kw_secret (rt : pystr) (enc : option (pystr * pystr)) (secret_len
   end.
 (* request_uri / PAR: the stub in the front channel lacks nonce (needed for id_token) and prompt=consent
    (needed for offline_access) *)
-Definition lim_byref_nonce (tr : transport) (rt : pystr) : bool := is_stub tr && has_word "id_token" rt.
-Definition lim_byref_consent (tr : transport) (offline : bool) : bool := is_stub tr && offline.
+Definition lim_byref_nonce (tr : transport) (rt : pystr) : bool :=
+  negb repaired_byref && is_stub tr && has_word "id_token" rt.
+Definition lim_byref_consent (tr : transport) (offline : bool) : bool :=
+  negb repaired_byref && is_stub tr && offline.
 (* PAR with a JWT client-authentication method: the RP addresses the assertion to the issuer, the endpoint
    accepts only its own URL *)
 Definition lim_par_jwt (tr : transport) (auth : pystr) : bool :=
-  match tr with TPar => is_jwt_method auth | _ => false end.
+  negb repaired_par_issuer_audience && match tr with TPar => is_jwt_method auth | _ => false end.
 
 (* a registered ID Token encryption: the provider does not apply it, the relying party insists on it *)
 Definition lim_idt_enc (rt : pystr) (enc : option (pystr * pystr)) : bool :=
-  is_some enc && (has_word "id_token" rt || uses_token_endpoint rt).
+  negb repaired_idt_enc && is_some enc && (has_word "id_token" rt || uses_token_endpoint rt).
+(* ... and once it is applied, the AES key-wrap algorithms meet the same secret-length limit as for userinfo *)
+Definition lim_kw_idt (rt : pystr) (enc : option (pystr * pystr)) (secret_len : N) : bool :=
+  repaired_idt_enc && (has_word "id_token" rt || uses_token_endpoint rt) &&
+  match enc with
+  | Some (a, _) => match assoc a enc_alg_family with Some KOct => negb (aes_len secret_len) | _ => false end
+  | None => false
+  end.
 
 (* PAR with a claims request *)
 Definition lim_par_claims (tr : transport) (claims : bool) : bool :=
-  match tr with TPar => claims | _ => false end.
+  negb repaired_par_request_class && match tr with TPar => claims | _ => false end.
 
 Definition limits (c : cfg) (i : inp) : bool :=
   lim_mode (c_rt c) (c_rm c) || lim_shadow (c_rt c) (i_op_explicit i)
@@ -394,7 +455,7 @@ Definition limits (c : cfg) (i : inp) : bool :=
   || lim_kw_secret (c_rt c) (c_ui_enc c) (i_secret_len i)
   || lim_byref_nonce (c_tr c) (c_rt c) || lim_byref_consent (c_tr c) (i_offline i)
   || lim_par_jwt (c_tr c) (c_auth c) || lim_par_claims (c_tr c) (i_claims i)
-  || lim_idt_enc (c_rt c) (c_idt_enc c).
+  || lim_idt_enc (c_rt c) (c_idt_enc c) || lim_kw_idt (c_rt c) (c_idt_enc c) (i_secret_len i).
 
 (* ------------------------------------------------------------------ the configuration space *)
 Definition in_opt (o : option pystr) (l : list pystr) : Prop :=
@@ -487,7 +548,7 @@ Definition has_src (x : src) : bool := match x with SrcNone => false | _ => true
 Definition view_session (asrc isrc : src) (s : session) : view :=
   mkView (Some (s_client s)) (Some (s_sub s)) (Some (s_scope s)) (s_nonce s)
          (if has_src asrc then Some (s_at_exp s) else None)
-         (match isrc with SrcToken => Some (s_idt_exp s) | SrcAuthz => Some 0%Z | SrcNone => None end).
+         (match isrc with SrcToken => Some (s_idt_exp s) | SrcAuthz => Some (if repaired_idt_exp then s_idt_exp s else 0%Z) | SrcNone => None end).
 (* the response that carries the access token (token response, or the authorization response of the implicit /
    hybrid types): scope and expires_in = expires_at - now; the view's expiry is now + expires_in *)
 Definition expires_in (s : session) (now_op : Z) : Z := (s_at_exp s - now_op)%Z.
